@@ -23,6 +23,20 @@ class Cmp(Op):
             m = gens.mode(rng)
             a, b = T.gen_pair(rng, m)
             yield (m, a, b)
+        # re-zoning across 1 January in both directions, every representation pair, leap/common neighbours
+        for m in oracle.MODES:
+            for y in (2019, 2020, 2021, 2024, 2025, 2100, 2101, 0, 1, -4, -3):
+                n0 = 86400 * oracle.dby(m, y)
+                for rep1 in "cow":
+                    for rep2 in "cow":
+                        for (z1, z2, off) in (((1, 0), (0, 0), 1800), ((0, 0), (-1, 0), 1800), ((0, 0), (1, 0), -1800),
+                                              ((13, 45), (-12, 0), 3600)):
+                            i0 = n0 + off - 3600 * z1[0] - 60 * z1[1]
+                            a = T.tp_from_inst(m, i0, rep1, z1[0], z1[1])
+                            for delta in (0, 1, -1):
+                                b = T.tp_from_inst(m, i0 + delta, rep2, z2[0], z2[1])
+                                yield (m, a, b)
+                                yield (m, b, a)
         # the 24:00 witnesses of the repaired defect, in every mode and representation
         for m in oracle.MODES:
             for rep1 in "cow":
